@@ -1,4 +1,5 @@
 import Anndb.Model.Allocator
+import Anndb.Generated
 import Anndb.Drive.Util
 /-! Model driver for the `wedge` engine (C18): exhaustive exploration of the allocator LTS for the
 burst the real node was fed; answers whether the observed outcome is allowed. -/
@@ -10,8 +11,9 @@ def parseEvents (s : String) : List Ev :=
 
 def step (u : Unit) (ws : List String) : Unit × List String :=
   match ws with
-  | [_, cap, lock, prop, addr, evs, observed] =>
-    let p : Params := ⟨cap.toNat!, lock == "1", prop == "1", addr == "1"⟩
+  | [_, _cap, _lock, prop, addr, evs, observed] =>
+    -- capacity and locking discipline are what the code says now (regenerated), not what the harness assumes
+    let p : Params := ⟨Generated.connNotifyChanCap, !Generated.allocatorSendsAfterUnlock, prop == "1", addr == "1"⟩
     let todo := parseEvents evs
     -- the state space is finite: (suffix of todo, +≤1 commit) × pcs × chan ≤ cap; fuel is generous
     let fuel := (todo.length + 3) * (p.cap + 2) * 40 + 1000
